@@ -455,9 +455,10 @@ Model generate(sim::Rng& rng, const GenOptions& opt) {
       Expr body;
       if (opt.tag_objectives) {
         // shapes whose tag constant survives flattening
-        int k = (int)rng.below(3);
+        int k = (int)rng.below(4);
         Expr x = var_leaf(c);
-        if (k == 0) body = Expr::Op(15, {Expr::Op(0, {x, Expr::Num(t)})});                     // abs(x + tag)
+        if (k == 3) body = Expr::Op(2, {Expr::Num(o.maximize ? -t : t), Expr::Op(77, {x})});    // +-tag * x^2 (convex for the sense: may become a cone)
+        else if (k == 0) body = Expr::Op(15, {Expr::Op(0, {x, Expr::Num(t)})});                // abs(x + tag)
         else if (k == 1) body = Expr::Op(2, {Expr::Op(2, {x, var_leaf(c)}), Expr::Num(t)});     // x*y*tag
         else body = Expr::Op(12, {Expr::Op(0, {x, Expr::Num(t)}), Expr::Num(-t)});              // max(x + tag, -tag)
       } else {
